@@ -42,12 +42,18 @@ class _Stop(Exception):
     below this node, or the outcome is discontinuous and inside the near-tie band)."""
 
 
+@functools.lru_cache(maxsize=None)
+def _units(sys3, dim):
+    """A Units object per (system, dimension); the constructors of UnitValue / UnitArray copy it."""
+    return uq.mk_units(sys3, dim)
+
+
 def _build(leaf):
     k = leaf["k"]
     if k == "uv":
-        return uq.mk_uv(leaf["v"], tuple(leaf["sys"]), tuple(leaf["dim"]))
+        return UnitValue(leaf["v"], _units(tuple(leaf["sys"]), tuple(leaf["dim"])))
     if k == "ua":
-        return uq.mk_ua(leaf["v"], tuple(leaf["sys"]), tuple(leaf["dim"]))
+        return UnitArray(list(leaf["v"]), _units(tuple(leaf["sys"]), tuple(leaf["dim"])))
     if k == "int":
         return int(leaf["v"])
     if k == "float":
